@@ -230,7 +230,7 @@ def compile_level(ctx, r, n):
                 why.append(f"HUGR of the generic program rejected by check_hugr: {g['valid']}")
             if k["valid"] is not True:
                 why.append(f"HUGR of the copy rejected by check_hugr: {k['valid']}")
-            if g["unfold"] != k["unfold"]:
+            if p.get("compare") != "valid-only" and g["unfold"] != k["unfold"]:
                 why.append("call trees differ: some call site of the generic program targets a specialisation that loads other constants / has other ops than the copy's")
             if g["defs"] != p["expected_defs"]:
                 why.append(f"monomorphizations per function: got {g['defs']}, expected {p['expected_defs']}")
